@@ -76,7 +76,7 @@ theorem C09_events (p : Policy) (hu : p.ensureInit.allowUnsafe = false) (input :
 
 /-- a written token of a plain policy is covered by the round trip -/
 theorem prov_segOK {p : Policy} (hp : Plain p) {t k : Token} (hwf : TokWF t) (h : Prov p t k) : SegOK k := by
-  rcases h with rfl | ⟨rfl, htt⟩ | ⟨aps, attrs, hr, hc, rfl, htt⟩
+  rcases h with ⟨rfl, _⟩ | ⟨rfl, htt⟩ | ⟨aps, attrs, hr, hc, rfl, htt⟩
   · simp [SegOK]
   · rcases htt with h | h | ⟨_, hcm⟩
     · unfold SegOK; rw [h]; trivial
